@@ -5,7 +5,7 @@
 set -u
 ID="$1"; X="$2"; shift 2
 CHECKS="${*:-$ID}"
-OUT=/tmp/wtout/$ID
+OUT=${SEED_OUT:-/tmp/wtout}/$ID
 PATCH=$OUT/patch$X.diff
 DEMO=$OUT/demo${X}_test.go
 HERE="$(cd "$(dirname "$0")/.." && pwd)"
